@@ -27,7 +27,8 @@ Qed.
 (** the sequential map specification: the same requests on a function id -> option matrix *)
 Definition mspec := nat -> option (csm S).
 Definition mload (f : mspec) (r : mref S) : option (csm S) :=
-  match r with MInline m => load_inline_mat m | MStored id => f id | MOther => None end.
+  match r with MInline m => load_inline_mat m | MStored id => f id
+  | MObject o => option_map (fun p => new_csr (fst p) (fst p) (snd p) false) o end.
 Definition mupd (f : mspec) (id : nat) (v : option (csm S)) : mspec := fun k => if k =? id then v else f k.
 Definition mspec_step (f : mspec) (r : sreq S) : mspec * sresp S :=
   match r with
@@ -48,7 +49,7 @@ Definition mspec_step (f : mspec) (r : sreq S) : mspec * sresp S :=
 Definition abs_store (st : store S) : mspec := fun id => st_get st id.
 
 Lemma load_abs : forall st r, load_mat st r = mload (abs_store st) r.
-Proof. intros st [m|id|]; reflexivity. Qed.
+Proof. intros st [m|id|o]; reflexivity. Qed.
 
 Theorem store_step_refines : forall (st : store S) (r : sreq S),
   snd (store_step st r) = snd (mspec_step (abs_store st) r) /\
@@ -160,7 +161,8 @@ Proof. intros. split; cbn; auto. rewrite map_length, seq_length. reflexivity. Qe
 
 Lemma load_mat_square : forall (st : store S) r c, store_square st -> load_mat st r = Some c -> square_wf c.
 Proof.
-  intros st [m|id|] c Hst H; cbn in H; try discriminate.
+  intros st [m|id|[[n es]|]] c Hst H; cbn in H; try discriminate.
+  3:{ inversion H; subst. apply new_csr_square. }
   - unfold load_inline_mat in H. destruct (im_size m <=? 0)%Z; [discriminate|].
     destruct (forallb _ _); [|discriminate]. inversion H; subst. apply new_csr_square.
   - eapply Hst; eauto.
